@@ -2,20 +2,38 @@
 //
 // Executions: the E1 exploration of harness/loop_explore.hh (all interaction-outcome
 // sequences within the deviation bound) over a lattice of SCORING configurations:
-//   callbacks/filters: {one recorder, no detectors, all fields | minimal fields;
-//                       two recorders sharing one collector;
-//                       recorder with detector map {inner} (non-zero filter off / on);
-//                       recorder with detector map {inner, world} + non-zero filter;
-//                       two recorders with disjoint detector maps;
-//                       SimpleCalo alone}
-//   x slots {1,2,8} x {1 stream | 2 streams run one after the other},
-//   always with ActionDiagnostic and StepDiagnostic attached.
+//   callbacks/filters (mode m<k>):
+//     0 one recorder, no detectors, all fields          1 ... minimal fields
+//     2 two recorders (all ; minimal)                   8 two recorders (minimal ; all)
+//     3 detector map {inner->0}                          4 ... + non-zero-deposit filter
+//     5 {inner->0, world->1} + filter                   12 {inner->3, world->0} + filter (ids not the
+//                                                          rank of the volume ids, not contiguous)
+//     6 two recorders, disjoint maps, filter (on ; off)  9 the same with (off ; on): declared filter
+//                                                          is the AND whatever the callback order
+//     10 {inner->0}, selection = {energy_deposition} only (no pre-step field: the pre-step gather
+//        action exists only because detectors are declared)
+//     11 {inner->3, world->0} + filter, selection {energy_deposition}
+//     14 {inner->0, world->1}, selection {parent_id, step_length, pre.energy, post.pos}
+//     7 SimpleCalo alone, labels {inner, g1}            13 SimpleCalo, labels {g1, inner}
+//     oh<k> one recorder selecting ONLY flag k (each of the 17 flags of StepSelection)
+//     dj<k> two recorders with disjoint one-flag selections (k ; (k+5) mod 17)
+//   x slots {1,2,8} x {1 stream | 2 streams, alternating from root to root}
+//   x track order {none; reindex_shuffle, reindex_status (+ particle_type, both_action in
+//     thorough) for modes 0 and 4: thread id != slot id},
+//   always with ActionDiagnostic and StepDiagnostic attached; primaries carry event ids 0..3.
 // Oracle: independent probe actions at user_pre / user_post snapshot every slot through
 // CoreTrackView; the multiset of delivered records must equal the multiset of snapshots
 // filtered by the DECLARED (merged) filters, field by field and bit for bit, for every
-// selected field; SimpleCalo totals == sum of expected deposits per detector;
+// selected field, and the stream id handed to the callback must be the stepper's; the set of
+// gathered collections must be exactly the union of the selections; with a detector map every
+// recorder also runs the real copy_steps() (DetectorSteps.cc) into a reused DetectorStepOutput
+// and compares it element-wise with the raw slots that carry a detector id;
+// SimpleCalo per-stream tallies and totals == sum of expected deposits per (stream, detector);
 // ActionDiagnostic == histogram of (particle, post-step action) over active slots;
-// StepDiagnostic == histogram of step counts of killed tracks.
+// StepDiagnostic == histogram of step counts of killed tracks (66 bins, clamped at 65);
+// and once per root ActionDiagnostic::calc_actions_map() == the labelled non-zero counts;
+// after every root the three tallies are clear()ed, must read zero, and start again.
+// Every configuration of the lattice is valid: a rejection while building it is a violation.
 #include "harness/loop_explore.hh"
 
 using namespace celeritas;
@@ -27,6 +45,8 @@ struct ScoreCfg
     int mode;
     unsigned slots;
     unsigned streams;
+    TrackOrder order{TrackOrder::none};
+    int hot{-1}, hot2{-1};  // one-flag selections (modes 15 / 16)
 };
 
 // merged declared filters / selection of a configuration
@@ -35,7 +55,63 @@ struct Declared
     std::map<int, int> detectors;  // volume -> detector
     bool nonzero{false};
     StepSelection selection;
+    std::vector<int> calo_detectors;  // SimpleCalo: detector index -> volume
 };
+
+// the 17 flags of StepSelection in the bit order of Recorder::note_presence
+static constexpr int num_flags = 17;
+static bool& flag(StepSelection& s, int k)
+{
+    switch (k)
+    {
+        case 0: return s.event_id;
+        case 1: return s.parent_id;
+        case 2: return s.track_step_count;
+        case 3: return s.action_id;
+        case 4: return s.step_length;
+        case 5: return s.particle;
+        case 6: return s.energy_deposition;
+        default: break;
+    }
+    StepPointSelection& p = s.points[k < 12 ? StepPoint::pre : StepPoint::post];
+    switch ((k - 7) % 5)
+    {
+        case 0: return p.time;
+        case 1: return p.pos;
+        case 2: return p.dir;
+        case 3: return p.volume_id;
+        default: return p.energy;
+    }
+}
+static char const* flag_name(int k)
+{
+    static char const* const n[num_flags]
+        = {"event_id", "parent_id", "track_step_count", "action_id", "step_length", "particle",
+           "energy_deposition", "pre.time", "pre.pos", "pre.dir", "pre.volume", "pre.energy",
+           "post.time", "post.pos", "post.dir", "post.volume", "post.energy"};
+    return n[k];
+}
+static uint32_t mask_of(StepSelection s)
+{
+    uint32_t m = 0;
+    for (int k = 0; k < num_flags; ++k)
+        m |= uint32_t(flag(s, k)) << k;
+    return m;
+}
+static StepSelection one_flag(int k)
+{
+    StepSelection s;
+    flag(s, k) = true;
+    return s;
+}
+static std::string mask_str(uint32_t m)
+{
+    std::string o;
+    for (int k = 0; k < num_flags; ++k)
+        if (m & (1u << k))
+            o += (o.empty() ? "" : ",") + std::string(flag_name(k));
+    return "{" + o + "}";
+}
 
 static StepSelection minimal_selection()
 {
@@ -53,6 +129,7 @@ static LoopConfig make_cfg(ScoreCfg const& sc, Declared* decl, int inner_vol, in
     c.along = AlongStep::linear;
     c.slots = sc.slots;
     c.max_streams = sc.streams;
+    c.track_order = sc.order;
     c.xs_gamma = 2.0;
     c.xs_electron = 3.0;
     c.dedx = 2.0;
@@ -68,6 +145,11 @@ static LoopConfig make_cfg(ScoreCfg const& sc, Declared* decl, int inner_vol, in
             f.detectors[VolumeId(kv.first)] = DetectorId(kv.second);
         return f;
     };
+    auto edep_only = [] {
+        StepSelection s;
+        s.energy_deposition = true;
+        return s;
+    };
     switch (sc.mode)
     {
         case 0: break;  // one recorder, everything
@@ -79,6 +161,10 @@ static LoopConfig make_cfg(ScoreCfg const& sc, Declared* decl, int inner_vol, in
             c.second_recorder = true;
             c.recorder2_selection = minimal_selection();
             break;  // union = all
+        case 8:
+            c.recorder_selection = minimal_selection();
+            c.second_recorder = true;  // selects everything: union = all
+            break;
         case 3:
             c.recorder_filters = det({{inner_vol, 0}});
             decl->detectors = {{inner_vol, 0}};
@@ -95,26 +181,84 @@ static LoopConfig make_cfg(ScoreCfg const& sc, Declared* decl, int inner_vol, in
             decl->detectors = {{inner_vol, 0}, {world_vol, 1}};
             decl->nonzero = true;
             break;
-        case 6:
-            c.recorder_filters = det({{inner_vol, 0}});
+        case 12:
+            c.recorder_filters = det({{inner_vol, 3}, {world_vol, 0}});
             c.recorder_filters.nonzero_energy_deposition = true;
+            decl->detectors = {{inner_vol, 3}, {world_vol, 0}};
+            decl->nonzero = true;
+            break;
+        case 6:
+        case 9:
+            c.recorder_filters = det({{inner_vol, 0}});
+            c.recorder_filters.nonzero_energy_deposition = (sc.mode == 6);
             c.second_recorder = true;
             c.recorder2_filters = det({{world_vol, 1}});
-            c.recorder2_filters.nonzero_energy_deposition = false;
+            c.recorder2_filters.nonzero_energy_deposition = (sc.mode == 9);
             decl->detectors = {{inner_vol, 0}, {world_vol, 1}};
-            decl->nonzero = false;  // only if all agree
+            decl->nonzero = false;  // only if all agree, whatever the order
             break;
-        case 7:
-            c.with_recorder = false;
-            c.calo_volumes = {"inner", "g1"};
+        case 10:
+            c.recorder_filters = det({{inner_vol, 0}});
+            c.recorder_selection = edep_only();
+            decl->detectors = {{inner_vol, 0}};
+            decl->selection = edep_only();
+            break;
+        case 11:
+            c.recorder_filters = det({{inner_vol, 3}, {world_vol, 0}});
+            c.recorder_filters.nonzero_energy_deposition = true;
+            c.recorder_selection = edep_only();
+            decl->detectors = {{inner_vol, 3}, {world_vol, 0}};
+            decl->nonzero = true;
+            decl->selection = edep_only();
+            break;
+        case 14: {
+            StepSelection s;
+            s.parent_id = true;
+            s.step_length = true;
+            s.points[StepPoint::pre].energy = true;
+            s.points[StepPoint::post].pos = true;
+            c.recorder_filters = det({{inner_vol, 0}, {world_vol, 1}});
+            c.recorder_selection = s;
             decl->detectors = {{inner_vol, 0}, {world_vol, 1}};
+            decl->selection = s;
+            break;
+        }
+        case 7:
+        case 13:
+            c.with_recorder = false;
+            if (sc.mode == 7)
+            {
+                c.calo_volumes = {"inner", "g1"};
+                decl->detectors = {{inner_vol, 0}, {world_vol, 1}};
+                decl->calo_detectors = {inner_vol, world_vol};
+            }
+            else
+            {
+                c.calo_volumes = {"g1", "inner"};
+                decl->detectors = {{world_vol, 0}, {inner_vol, 1}};
+                decl->calo_detectors = {world_vol, inner_vol};
+            }
             decl->nonzero = true;
             {
+                // SimpleCalo's own selection
                 StepSelection s;
                 s.energy_deposition = true;
+                s.points[StepPoint::pre].volume_id = true;
                 decl->selection = s;
             }
             break;
+        case 15:
+            c.recorder_selection = one_flag(sc.hot);
+            decl->selection = one_flag(sc.hot);
+            break;
+        case 16:
+            c.recorder_selection = one_flag(sc.hot);
+            c.second_recorder = true;
+            c.recorder2_selection = one_flag(sc.hot2);
+            decl->selection = one_flag(sc.hot);
+            flag(decl->selection, sc.hot2) = true;
+            break;
+        default: throw std::runtime_error("bad scoring mode");
     }
     return c;
 }
@@ -132,16 +276,49 @@ int main(int argc, char** argv)
     bool const thorough = R.thorough();
     int const bound = 2;
     std::vector<ScoreCfg> cfgs;
-    for (int mode = 0; mode <= 7; ++mode)
+    for (int mode = 0; mode <= 14; ++mode)
         for (unsigned s : {1u, 2u, 8u})
             for (unsigned streams : {1u, 2u})
             {
-                if (!thorough && streams == 2 && !(mode == 0 || mode == 7))
-                    continue;
-                if (!thorough && s == 8 && mode % 2)
+                // quick: two streams only where the stream matters beyond the stream id handed
+                // to the callback (calorimeters) + one representative of each family
+                if (!thorough && streams == 2
+                    && !(mode == 0 || mode == 4 || mode == 7 || mode == 9 || mode == 12 || mode == 13))
                     continue;
                 cfgs.push_back({fmt("m%d.s%u.t%u", mode, s, streams), mode, s, streams});
             }
+    // thread id != slot id
+    {
+        std::vector<TrackOrder> orders = {TrackOrder::reindex_shuffle, TrackOrder::reindex_status};
+        if (thorough)
+        {
+            orders.push_back(TrackOrder::reindex_particle_type);
+            orders.push_back(TrackOrder::reindex_both_action);
+            orders.push_back(TrackOrder::init_charge);
+        }
+        for (int mode : {0, 4})
+            for (unsigned s : {2u, 8u})
+                for (TrackOrder o : orders)
+                {
+                    ScoreCfg sc{fmt("m%d.s%u.t1.o%d", mode, s, int(o)), mode, s, 1};
+                    sc.order = o;
+                    cfgs.push_back(sc);
+                }
+    }
+    // one-flag selections, and pairs of disjoint one-flag selections
+    for (int k = 0; k < num_flags; ++k)
+        for (unsigned s : {1u, 2u, 8u})
+        {
+            if (!thorough && s != 2)
+                continue;
+            ScoreCfg a{fmt("oh%d.s%u.t1", k, s), 15, s, 1};
+            a.hot = k;
+            cfgs.push_back(a);
+            ScoreCfg b{fmt("dj%d.s%u.t1", k, s), 16, s, 1};
+            b.hot = k;
+            b.hot2 = (k + 5) % num_flags;
+            cfgs.push_back(b);
+        }
     auto prims = primary_lattice(false);
     if (!thorough)
     {
@@ -165,30 +342,59 @@ int main(int argc, char** argv)
         int const inner_vol = 1, world_vol = 2;
         Declared decl;
         LoopConfig cfg = make_cfg(sc, &decl, inner_vol, world_vol);
-        auto P = make_loop_problem(cfg);
+        std::unique_ptr<LoopProblem> P;
+        try
+        {
+            P = make_loop_problem(cfg);
+        }
+        catch (std::exception const& e)
+        {
+            // every configuration of the lattice is valid (non-empty selections, disjoint
+            // detector maps, detectors on all callbacks or on none)
+            std::string what = e.what();
+            R.violation("scoring:valid-configuration-rejected", sc.id + ":" + prims.front().id + "|",
+                        fmt("%s: constructing the problem with a valid set of step callbacks threw: %s",
+                            sc.id.c_str(), what.substr(0, 400).c_str()));
+            continue;
+        }
         {
             auto const& vols = P->geometry->volumes();
             if (vols.at(VolumeId(inner_vol)).name != "inner" || vols.at(VolumeId(world_vol)).name != "g1")
                 R.harness_error("unexpected volume numbering");
         }
+        for (Recorder* rec : {P->recorder.get(), P->recorder2.get()})
+            if (rec)
+            {
+                rec->track_presence = true;
+                rec->run_copy_steps = true;  // acts only when a detector map is declared
+            }
         R.tag("config:" + sc.id);
-        // cumulative expectations for the diagnostics (they accumulate in the shared params)
+        uint32_t const want_mask = mask_of(decl.selection);
+        // cumulative expectations for the diagnostics (they accumulate in the shared params
+        // until clear() is called at the end of every root)
         std::map<std::pair<int, int>, uint64_t> exp_actions;  // (particle, action) -> count
         std::map<std::pair<int, int>, uint64_t> exp_steps;  // (particle, nsteps bin) -> count
-        std::vector<double> exp_calo(2, 0.0);
-        unsigned stream_toggle = 0;
+        size_t const ncalo = decl.calo_detectors.size();
+        std::vector<std::vector<double>> exp_calo(sc.streams, std::vector<double>(ncalo, 0.0));
+        // StepDiagnostic::make_and_insert(core, 64): 64 + underflow + overflow bins, the
+        // executor clamps the step count at num_bins - 1
+        unsigned const step_bins = 64 + 2;
+        unsigned prim_index = 0;
         for (auto const& pc : prims)
         {
+            unsigned const pidx = prim_index++;
             std::string root = sc.id + ":" + pc.id;
             if (R.replay() && R.replay_case().compare(0, root.size() + 1, root + "|") != 0)
                 continue;
             R.begin_case(root, 600);
+            auto const violations_before = R.num_violations();
             ExploreStats st;
             EventRun er;
-            unsigned stream = 0;
+            // streams alternate from root to root (a function of the root, so that a replay
+            // runs on the same stream); event ids 0..3
+            unsigned const stream = (sc.streams == 2) ? (pidx % 2) : 0;
+            unsigned const event = pidx % 4;
             auto body = [&](Choices& c) {
-                // run_event() makes the stepper on stream 0; alternate streams by hand
-                stream = (sc.streams == 2) ? (stream_toggle++ % 2) : 0;
                 if (P->recorder)
                     P->recorder->steps.clear();
                 if (P->recorder2)
@@ -203,7 +409,7 @@ int main(int argc, char** argv)
                 {
                     auto stp = P->make_stepper(stream);
                     stp->reseed(UniqueEventId{0});
-                    Primary p = P->primary(pc.kind, pc.energy, pc.pos, pc.dir, 0);
+                    Primary p = P->primary(pc.kind, pc.energy, pc.pos, pc.dir, event);
                     StepperResult r = (*stp)(Span<Primary const>{&p, 1});
                     er.calls = 1;
                     while (r && er.calls < 10000)
@@ -255,7 +461,12 @@ int main(int argc, char** argv)
                     // diagnostics count every active slot
                     ++exp_actions[{e.post->particle, e.post->post_action}];
                     if (e.post->status == int(TrackStatus::killed))
-                        ++exp_steps[{e.post->particle, int(std::min<unsigned>(e.post->num_steps, 63))}];
+                    {
+                        ++exp_steps[{e.post->particle,
+                                     int(std::min<unsigned>(e.post->num_steps, step_bins - 1))}];
+                        if (e.post->num_steps >= step_bins - 1)
+                            R.tag("step-diagnostic:overflow-bin");
+                    }
                     e.detector = -1;
                     if (!decl.detectors.empty())
                     {
@@ -265,7 +476,8 @@ int main(int argc, char** argv)
                         e.detector = it->second;
                         if (decl.nonzero && e.post->edep == 0)
                             continue;
-                        exp_calo[e.detector] += e.post->edep;
+                        if (ncalo)
+                            exp_calo[stream][e.detector] += e.post->edep;
                     }
                     deliver.push_back(kv);
                     ++nexp;
@@ -286,7 +498,48 @@ int main(int argc, char** argv)
                                         rec->stale_detector_first.c_str()));
                         rec->stale_detector_slots = 0;
                         rec->stale_detector_first.clear();
+                        rec->copy_steps_errors = 0;
+                        rec->copy_steps_first.clear();
                         return true;
+                    }
+                    if (rec->copy_steps_errors)
+                    {
+                        R.violation("scoring:copy-steps", cid,
+                                    fmt("%s: copy_steps() output differs from the raw slots that have a "
+                                        "detector id in %llu of %llu calls (first: %s)",
+                                        sc.id.c_str(), (unsigned long long)rec->copy_steps_errors,
+                                        (unsigned long long)rec->copy_steps_calls,
+                                        rec->copy_steps_first.c_str()));
+                        rec->copy_steps_errors = 0;
+                        rec->copy_steps_first.clear();
+                        return true;
+                    }
+                    // "each data member corresponds exactly to a flag in StepSelection; if the
+                    // flag is disabled the member data will be empty" (StepData.hh): the gathered
+                    // collections are exactly the union of the callbacks' selections
+                    if (rec->present_or != 0 || rec->present_and != ~uint32_t(0))
+                    {
+                        uint32_t const missing = want_mask & ~rec->present_and;
+                        uint32_t const extra = rec->present_or & ~want_mask;
+                        rec->present_or = 0;
+                        rec->present_and = ~uint32_t(0);
+                        if (missing)
+                        {
+                            R.violation("scoring:selected-field-not-gathered", cid,
+                                        fmt("%s: selected %s, but the collections of %s were delivered "
+                                            "empty",
+                                            sc.id.c_str(), mask_str(want_mask).c_str(),
+                                            mask_str(missing).c_str()));
+                            return true;
+                        }
+                        if (extra)
+                        {
+                            R.violation("scoring:field-gathered-but-not-selected", cid,
+                                        fmt("%s: selected %s, but %s were gathered too", sc.id.c_str(),
+                                            mask_str(want_mask).c_str(), mask_str(extra).c_str()));
+                            return true;
+                        }
+                        R.count("presence_checked");
                     }
                     std::map<std::pair<unsigned, unsigned>, StepRec const*> got;
                     for (auto const& r : rec->steps)
@@ -326,8 +579,10 @@ int main(int argc, char** argv)
                                 bad = what;
                         };
                         chk(true, r.track == e.post->track, "track_id");
+                        chk(true, r.stream == int(stream), "stream_id");
                         chk(!decl.detectors.empty(), r.detector == e.detector, "detector");
                         chk(sel.event_id, r.event == e.post->event, "event_id");
+                        chk(sel.event_id, r.event == event, "event_id");
                         chk(sel.parent_id, r.parent == e.post->parent, "parent_id");
                         chk(sel.track_step_count, r.step_count == e.post->num_steps, "track_step_count");
                         chk(sel.action_id, r.action == e.post->post_action, "action_id");
@@ -356,26 +611,57 @@ int main(int argc, char** argv)
                         }
                         R.count("records_compared");
                     }
+                    if (rec->copy_steps_calls)
+                    {
+                        R.count("copy_steps_calls", rec->copy_steps_calls);
+                        R.count("copy_steps_elements", rec->copy_steps_elements);
+                        rec->copy_steps_calls = 0;
+                        rec->copy_steps_elements = 0;
+                    }
                 }
-                // calorimeter
+                // calorimeter: per stream (the state the callback's stream id selects) and total
                 if (P->calo)
                 {
                     auto tot = P->calo->calc_total_energy_deposition();
+                    if (tot.size() != ncalo)
+                        R.harness_error("calorimeter size");
                     for (size_t d = 0; d < tot.size(); ++d)
                     {
-                        double tol = 1e-12 * (std::fabs(exp_calo[d]) + 1);
-                        if (std::fabs(tot[d] - exp_calo[d]) > tol)
+                        double want_tot = 0;
+                        for (unsigned s = 0; s < sc.streams; ++s)
+                        {
+                            double const want = exp_calo[s][d];
+                            want_tot += want;
+                            // stream-local tally: SimpleCalo::energy_deposition<host>(StreamId) is
+                            // declared but not instantiated in the library, so read its store
+                            auto const* sp = P->calo->store_.state<MemSpace::host>(StreamId{s});
+                            double const have
+                                = sp ? sp->energy_deposition[DetectorId(d)] : 0.0;
+                            double tol = 1e-12 * (std::fabs(want) + 1);
+                            if (std::fabs(have - want) > tol)
+                            {
+                                R.violation("scoring:calorimeter-stream-tally", cid,
+                                            fmt("%s stream %u detector %zu (volume %d): stream-local "
+                                                "tally %.17g, sum of deposits of the steps that "
+                                                "happened on that stream %.17g (event ran on stream %u)",
+                                                sc.id.c_str(), s, d, decl.calo_detectors[d], have, want,
+                                                stream));
+                                return true;
+                            }
+                        }
+                        double tol = 1e-12 * (std::fabs(want_tot) + 1);
+                        if (std::fabs(tot[d] - want_tot) > tol)
                         {
                             R.violation("scoring:calorimeter-total", cid,
-                                        fmt("%s detector %zu: tally %.17g, sum of deposits of the steps "
-                                            "that happened %.17g",
-                                            sc.id.c_str(), d, tot[d], exp_calo[d]));
+                                        fmt("%s detector %zu (volume %d): tally %.17g, sum of deposits "
+                                            "of the steps that happened %.17g",
+                                            sc.id.c_str(), d, decl.calo_detectors[d], tot[d], want_tot));
                             return true;
                         }
                     }
                     R.count("calo_compared");
                 }
-                // diagnostics (cumulative over all executions on this CoreParams)
+                // diagnostics (cumulative over the executions of this root on this CoreParams)
                 {
                     auto act = P->action_diag->calc_actions();
                     for (size_t p = 0; p < act.size(); ++p)
@@ -385,8 +671,15 @@ int main(int argc, char** argv)
                             uint64_t want = it == exp_actions.end() ? 0 : it->second;
                             if (act[p][a] != want)
                             {
-                                R.violation(sc.slots == 1 ? "scoring:action-diagnostic-count[1-slot]"
-                                                          : "scoring:action-diagnostic-count",
+                                // the recorded (fixed) finding is "never runs with one track
+                                // slot": every count is zero; any other miscount is not it
+                                bool all_zero = true;
+                                for (auto const& row : act)
+                                    for (auto v : row)
+                                        all_zero = all_zero && v == 0;
+                                R.violation(sc.slots == 1 && all_zero
+                                                ? "scoring:action-diagnostic-count[1-slot]"
+                                                : "scoring:action-diagnostic-count",
                                             cid,
                                             fmt("%s: ActionDiagnostic counts %u steps of particle %zu "
                                                 "ending with action %s, %llu happened",
@@ -398,6 +691,9 @@ int main(int argc, char** argv)
                         }
                     auto stp = P->step_diag->calc_steps();
                     for (size_t p = 0; p < stp.size(); ++p)
+                    {
+                        if (stp[p].size() != step_bins)
+                            R.harness_error("StepDiagnostic bin count");
                         for (size_t b = 0; b < stp[p].size(); ++b)
                         {
                             auto it = exp_steps.find({int(p), int(b)});
@@ -412,6 +708,7 @@ int main(int argc, char** argv)
                                 return true;
                             }
                         }
+                    }
                     R.count("diagnostics_compared");
                 }
                 uint64_t h = hash_str(sc.id);
@@ -434,6 +731,73 @@ int main(int argc, char** argv)
             {
                 explore(body, on_exec, bound, &st);
             }
+            // labelled form of the action counts (once per root, on the cumulative counts)
+            if (R.num_violations() == violations_before)
+            {
+                std::map<std::string, uint64_t> want;
+                for (auto const& kv : exp_actions)
+                    if (kv.second)
+                        want[P->action_labels.at(kv.first.second) + " "
+                             + std::string(P->particle->id_to_label(ParticleId(kv.first.first)))]
+                            += kv.second;
+                std::map<std::string, uint64_t> have;
+                for (auto const& kv : P->action_diag->calc_actions_map())
+                    have[kv.first] = kv.second;
+                if (have != want)
+                {
+                    std::string diff;
+                    for (auto const& kv : want)
+                        if (!have.count(kv.first) || have[kv.first] != kv.second)
+                            diff += fmt(" '%s' expected %llu got %llu;", kv.first.c_str(),
+                                        (unsigned long long)kv.second,
+                                        (unsigned long long)(have.count(kv.first) ? have[kv.first] : 0));
+                    for (auto const& kv : have)
+                        if (!want.count(kv.first))
+                            diff += fmt(" '%s' expected 0 got %llu;", kv.first.c_str(),
+                                        (unsigned long long)kv.second);
+                    R.violation("scoring:action-diagnostic-map", root + "|",
+                                fmt("%s: calc_actions_map() differs from the steps that happened:%s",
+                                    sc.id.c_str(), diff.c_str()));
+                }
+                R.count("action_map_compared");
+            }
+            // reset of the tallies: clear() (all streams), everything must read zero, and the
+            // expectations of the next root start from zero
+            {
+                if (P->calo)
+                    P->calo->clear();
+                P->action_diag->clear();  // precondition: a run has begun (a Stepper was made)
+                P->step_diag->clear();
+                std::string left;
+                if (P->calo)
+                {
+                    for (double v : P->calo->calc_total_energy_deposition())
+                        if (v != 0)
+                            left = "SimpleCalo total";
+                    for (unsigned s = 0; s < sc.streams; ++s)
+                        if (auto const* sp = P->calo->store_.state<MemSpace::host>(StreamId{s}))
+                            for (size_t d = 0; d < ncalo; ++d)
+                                if (sp->energy_deposition[DetectorId(d)] != 0)
+                                    left = fmt("SimpleCalo stream %u", s);
+                }
+                for (auto const& row : P->action_diag->calc_actions())
+                    for (auto v : row)
+                        if (v != 0)
+                            left = "ActionDiagnostic";
+                for (auto const& row : P->step_diag->calc_steps())
+                    for (auto v : row)
+                        if (v != 0)
+                            left = "StepDiagnostic";
+                if (!left.empty())
+                    R.violation("scoring:clear-does-not-reset", root + "|",
+                                fmt("%s: %s still holds counts after clear()", sc.id.c_str(),
+                                    left.c_str()));
+                R.count("clear_checked");
+                exp_actions.clear();
+                exp_steps.clear();
+                for (auto& v : exp_calo)
+                    std::fill(v.begin(), v.end(), 0.0);
+            }
             R.count("roots");
             R.end_case();
             if (R.num_violations() > 20)
@@ -441,8 +805,13 @@ int main(int argc, char** argv)
         }
     }
     R.sample("m4.s2.t1:k0.e2.p0.d2|3.1 = recorder with detector map {inner} + non-zero filter, 2 slots: "
-             "100 MeV gamma, outcomes absorb_two then scatter_half; delivered records vs probe snapshots");
+             "100 MeV gamma, outcomes absorb_two then scatter_half; delivered records vs probe snapshots; "
+             "copy_steps() output vs raw slots");
     R.sample("m7.s1.t2:k2.e1.p1.d2| = SimpleCalo alone, one slot, two streams alternating: positron "
-             "event, tallies vs expected deposits; ActionDiagnostic/StepDiagnostic histograms");
+             "event, per-stream tallies vs expected deposits; ActionDiagnostic/StepDiagnostic histograms");
+    R.sample("oh9.s2.t1:k1.e1.p0.d2|1 = one recorder selecting ONLY pre.dir: the pre-step gather action "
+             "must exist and nothing else may be gathered");
+    R.sample("m9.s2.t1:k0.e1.p0.d2| = two recorders, disjoint detector maps, non-zero filter (off ; on): "
+             "zero-deposit steps must still reach both");
     return R.finish();
 }
